@@ -1,6 +1,6 @@
 (* GENERATED ONCE by tools/pin.py from Properties/C09.v and committed: the pinned statements. *)
 From VF.Properties Require C09.
-From VF Require Import Base Gen_Errors Gen_Consts ErrTable Fmt Lexer Grammar Response Conv Fmt_proofs.
+From VF Require Import Base Gen_Errors Gen_Consts ErrTable Fmt Lexer Grammar Response Conv Fmt_proofs ResponseDecoder ResponseDecoder_proofs.
 Open Scope N_scope.
 
 Check (VF.Properties.C09.C09_int_text : forall n, response_text (RInt n) = (fmt_Z n, None)).
@@ -48,3 +48,22 @@ Check (VF.Properties.C09.C09_list_text : forall x xs, Forall fmt_ok (x :: xs) ->
 Check (VF.Properties.C09.C09_int_list_rt : forall n ns,
   tokenize_params (text (RList (map RInt (n :: ns)))) =
   Val ((IOk (TDec (fmt_Z n))) :: flat_map (fun k => [IOk TDataSeparator; IOk (TDec (fmt_Z k))]) ns)).
+Check (VF.Properties.C09.C09_response_decodes : forall units,
+  units <> [] -> Forall (fun ds => ds <> [] /\ forallb decodable ds = true) units ->
+  decode_response (emit_message units) = Some (map (flat_map items_of) units)).
+Check (VF.Properties.C09.C09_emit_message_text : forall units,
+  units <> [] -> Forall (fun ds => ds <> [] /\ forallb decodable ds = true) units ->
+  emit_message units = intercalate [59] (map unit_text units) ++ [10]).
+Check (VF.Properties.C09.C09_unit_count_preserved : forall units,
+  units <> [] -> Forall (fun ds => ds <> [] /\ forallb decodable ds = true) units ->
+  exists dec, decode_response (emit_message units) = Some dec /\ length dec = length units).
+Check (VF.Properties.C09.C09_item_count_preserved : forall units,
+  units <> [] -> Forall (fun ds => ds <> [] /\ forallb decodable ds = true) units ->
+  exists dec, decode_response (emit_message units) = Some dec
+    /\ map (@length item) dec = map (fun ds => list_sum (map n_elements ds)) units).
+Check (VF.Properties.C09.C09_separators_inside_string_are_data : forall s, all_ascii s = true ->
+  decode_response (emit_message [[RStr s]; [RInt 1]]) = Some [[IStr s]; [INum 1]]).
+Check (VF.Properties.C09.C09_separators_inside_block_are_data : forall p, N.of_nat (length p) < 1000000000 ->
+  decode_response (emit_message [[RBlock p; RInt 2]]) = Some [[IBlock p; INum 2]]).
+Check (VF.Properties.C09.C09_decode_response_fuel : forall b fuel,
+  (length b < fuel)%nat -> decode_from fuel b = decode_response b).
